@@ -267,6 +267,25 @@ def build(seed, index):
     return gen.program()
 
 
+def _handler_battery():
+    from usim import Concurrent
+    answers = []
+    for _ in range(3):
+        base = type('Base', (Exception,), {})
+        derived = type('Derived', (base,), {})
+        other = type('Other', (base,), {})
+        unrelated = type('Unrelated', (Exception,), {})
+        failures = [Concurrent(derived(), other()), Concurrent(derived()),
+                    Concurrent(other(), unrelated()), Concurrent(base(), derived(), other())]
+        handlers = [Concurrent[base, derived], Concurrent[derived, base, ...],
+                    Concurrent[base, other, derived], Concurrent[other, unrelated],
+                    Concurrent[base, ...], Concurrent[derived, other]]
+        for failure in failures:
+            for handler in handlers:
+                answers.append(int(isinstance(failure, handler)))
+    return ''.join(map(str, answers))
+
+
 def build_single(seed, index):
     """a program for callers that run one simulation per program"""
     program = build(seed, index)
@@ -301,6 +320,10 @@ def run_once(program, perturb=0):
         env, outcome = execute(program, sess)
     lines = [normalise(ev) for ev in sess.events]
     lines.append('outcome:%s' % env.outcome)
+    # part of what a program observes: which handlers select a failure - with classes of its
+    # own, made afresh in every run (their addresses, hence the order of sets of them, differ
+    # from run to run and from configuration to configuration)
+    lines.append('handlers:%s' % (_handler_battery(),))
     digest = hashlib.sha1('\n'.join(lines).encode()).hexdigest()
     # The activation trace that is compared is that of the program's own activities. Helper
     # coroutines of the library (the observer of a connective, the trigger of a date) are not
